@@ -10,6 +10,24 @@ CLAIMED = {
    note="Trusted: Lean kernel; the hand-written Lean transliteration of serializers.h/_binary.py (tied by differential runs only); model/value generators; C++ ndarray/date shims; HDF5 not covered.",
    technique="Lean 4 proof (structural induction on wire types) + differential correspondence with generated C++/Python",
    design="§7 C01"),
+ "C15": dict(
+   engine="wire",
+   text="Kernel-checked theorems about the header acceptance decision (own schema accepted; foreign schema, bad magic, bad version, short header refused; headers self-delimiting), tied to generated C++ and Python binary readers by a differential run over corrupted headers, other protocols' streams and single-edit neighbour models; a refusal must precede any delivered value.",
+   note="Trusted: Lean kernel; hand-written header model; NDJSON headers and C++ previous-version acceptance are not modelled here (see C05).",
+   technique="Lean 4 proof + differential correspondence with generated C++/Python readers",
+   design="§7 C15"),
+ "C16": dict(
+   engine="wire",
+   text="Kernel-checked theorems: no proper prefix of a valid value/protocol body decodes (format is self-delimiting), and the model of the C++ CodedInputStream raises end-of-stream on every cut of every primitive for every buffer capacity >= 10 without ever reading outside its valid window. Tied to the code by (1) model-vs-runtime runs of the real C++ and Python coded streams at small capacities on every prefix and (2) every-prefix / refill-boundary cuts of reference streams through generated C++ and Python readers.",
+   note="Trusted: Lean kernel; hand transliteration of coded_stream.h (tied by differential runs at capacities 10,11,16,64); the lift from primitive reads to whole generated readers is by correspondence, not proof; no Lean model of the Python reader (judged by the property's oracle).",
+   technique="Lean 4 proof (induction over varint/bytes loops) + differential correspondence on truncated streams",
+   design="§7 C16"),
+ "C17": dict(
+   engine="wire",
+   text="Kernel-checked theorems: any block partition decodes to the same items; a model of ReadBlock/ReadBlocksIntoVector (current_block_remaining_ carried across calls) delivers, for every mixture of single and batched reads of any capacities, the written items in order exactly once. Tied to generated C++ (output block structure must equal the model's predicted batch sizes) and Python (lazy and list write paths); consecutive items alternate large/minimal shapes to expose state carried between items.",
+   note="Trusted: Lean kernel; hand-written batch reader model; item independence of the implementation (reused destination objects) is decided by correspondence only.",
+   technique="Lean 4 proof (invariant over read-operation sequences) + differential correspondence",
+   design="§7 C17"),
 }
 NOT_YET = "machinery for this property is not built yet in this round (see DESIGN.md §10 build order)"
 checks, na = [], []
